@@ -192,6 +192,31 @@ theorem every_interleaving_accepted (acts : List Act) : Accepted (connRun {} act
   rw [hnil] at hcfg
   cases hcfg
 
+/-- A reply handed to the send function is final: whatever is delivered or done afterwards (any messages, any
+    handler steps, any observations), the trace so far stays as it is — later activity only appends. In the model
+    requests and replies are values; no reply shares storage with the request buffer or with a later reply. The
+    correspondence run ties exactly this to the code: the harness' send function keeps the slices it is given and
+    reads them again after later operations (`late`), requests arrive in buffers with spare capacity. -/
+theorem sent_replies_are_final (c : Conn) (acts : List Act) :
+    ∃ more, (connRun c acts).trace = c.trace ++ more := by
+  induction acts generalizing c with
+  | nil => exact ⟨[], by simp [connRun]⟩
+  | cons a as ih =>
+    obtain ⟨m2, h2⟩ := ih (connStep c a)
+    have h1 : ∃ m1, (connStep c a).trace = c.trace ++ m1 := by
+      cases a with
+      | deliver msg =>
+        refine ⟨[.req (classify msg).op (classify msg).kind] ++
+          (if (classify msg).spawns then [] else (syncReplies (classify msg)).map evOfReply), ?_⟩
+        simp only [connStep, List.append_assoc]
+      | tstep i o =>
+        simp only [connStep]
+        cases c.threads[i]? with
+        | none => exact ⟨[], by simp⟩
+        | some t => exact ⟨_, rfl⟩
+    obtain ⟨m1, h1⟩ := h1
+    exact ⟨m1 ++ m2, by simp only [connRun]; rw [h2, h1, List.append_assoc]⟩
+
 /-- The executable trace acceptor (run by the tie on recorded traces of the real code) accepts exactly
     the traces that can be explained: every request opens a conversation in its kind's initial phase and
     every reply advances ONE conversation of its own operation ID by a step the protocol allows. -/
